@@ -21,6 +21,26 @@ Inductive mkind :=
 
 Record cand := { c_sb : bool; c_eb : bool; c_kind : mkind; c_weight : Q }.
 
+(** The weight of a candidate is the product of the query.Boost values above its atom
+    (visitMatches: weight * s.boost, from 1).  Boost values are binary64 numbers copied unchecked from the
+    wire (query.BoostFromProto), so the product can be any binary64 value: a rational, +-Inf or NaN. *)
+Inductive xweight := XNaN | XPosInf | XNegInf | XFin (q : Q).
+
+(** index/eval.go:setScoreWeight caps the product: `if scoreWeight > maxBoostWeight { scoreWeight =
+    maxBoostWeight }` (/repo b74fc3f).  +Inf and every rational above the cap become the cap; NaN and -Inf
+    pass the comparison unchanged.  Such a candidate can never win: scoreLine computes score * weight
+    (NaN, -Inf, or NaN again for 0 * -Inf) and keeps a candidate only if that is > the best so far, which is
+    >= 0; boostScore (BM25) takes the maximum of 1 and the weights with `>`.  Both comparisons are false —
+    exactly as for the weight 0 (score * 0 = 0 is not > best >= 0; 0 is not > 1).  Over exact rationals
+    the model therefore gives NaN and -Inf the effective weight 0; the correspondence runs feed NaN, +-Inf,
+    huge and non-positive products through the real scorer and through [eff_weight]. *)
+Definition eff_weight (w : xweight) : Q :=
+  match w with
+  | XNaN | XNegInf => 0
+  | XPosInf => c_maxBoostWeight
+  | XFin q => if Qltb c_maxBoostWeight q then c_maxBoostWeight else q
+  end.
+
 (** explanation tokens (the debug strings, abstracted): (tag, value) *)
 Definition dtoken := (N * Q)%type.
 Definition t_word : N := 1%N.   Definition t_partword : N := 2%N.
@@ -161,7 +181,7 @@ Definition rank_all (dbg : bool) (fs : list (N * N * fin)) : list (N * Q * list 
 Definition rq := (Z * positive)%type.
 Definition q_of (x : rq) : Q := Qmake (fst x) (snd x).
 (* kind code: 0 none | 1 file | 2 symbol ; three flags ; optional kind score *)
-Definition rcand := (bool * bool * (N * bool * bool * bool * option rq) * rq)%type.
+Definition rcand := (bool * bool * (N * bool * bool * bool * option rq) * xweight)%type.
 Definition mk_cand (c : rcand) : cand :=
   let '(sb, eb, (k, b1, b2, b3, kq), w) := c in
   {| c_sb := sb; c_eb := eb;
@@ -170,7 +190,7 @@ Definition mk_cand (c : rcand) : cand :=
                | 1%N => KFile b1 b2 b3
                | _ => KSym b1 b2 (option_map q_of kq)
                end;
-     c_weight := q_of w |}.
+     c_weight := eff_weight w |}.
 Definition rfin := (N * N * (N * Z * Z * Z) * list (list (Z * list rcand)))%type.
 Definition mk_fin (f : rfin) : N * N * fin :=
   let '(i, e, (a, rk, d, nd), ms) := f in
@@ -180,7 +200,11 @@ Definition mk_fin (f : rfin) : N * N * fin :=
 Definition robs := list (N * rq * list (N * rq)).
 Definition c29case := (list rfin * robs * robs)%type.   (* inputs, observed with debug off, with debug on *)
 
-Definition close (tol : Q) (a b : Q) : bool := Qle_bool (Qabs (a - b)) tol.
+(** binary64 vs exact: an absolute tolerance (the `i/len`, `doc/ndocs`, `1/atoms` terms) plus a relative one
+    of 2^-48 for the few roundings of scores that a large boost weight has scaled up (at ordinary magnitudes
+    the relative part is below the absolute one: file scores < 2^37, match scores < 2^14) *)
+Definition tol_rel : Q := 1 # 281474976710656.   (* 2^-48 *)
+Definition close (tol : Q) (a b : Q) : bool := Qle_bool (Qabs (a - b)) (tol + tol_rel * Qabs a).
 Definition tol_match : Q := 1 # 1073741824.   (* 2^-30 *)
 Definition tol_file : Q := 1 # 4096.          (* 2^-12 *)
 
@@ -191,12 +215,38 @@ Fixpoint list_eqb2 {A B} (eqb : A -> B -> bool) (a : list A) (b : list B) : bool
   | _, _ => false
   end.
 
+Fixpoint nodupN (l : list N) : bool :=
+  match l with
+  | [] => true
+  | x :: r => negb (existsb (N.eqb x) r) && nodupN r
+  end.
+
+(** Order "up to ties".  The model ranks by exact scores; the implementation by binary64 scores with an
+    unstable sort, and a large boost weight absorbs the tie-breaking terms (in-file order term, repository
+    rank, document order), so that scores which differ exactly are equal in binary64 and their order is
+    unspecified.  An observed ranking [o] agrees with the model's ranking [m] when (1) both have the same length
+    and the scores at every RANK agree within the tolerance, (2) every observed entry is an entry of the model
+    (by identity) whose model score agrees with the observed score, (3) no identity is observed twice.  For
+    entries whose scores are further apart than twice the tolerance this forces the same position. *)
+Definition matches_eqv (am : list (nat * Q)) (bm : list (N * rq)) : bool :=
+  list_eqb2 (fun (x : nat * Q) (y : N * rq) => close tol_match (snd x) (q_of (snd y))) am bm &&
+  forallb (fun y : N * rq =>
+             match find (fun x : nat * Q => N.eqb (N.of_nat (fst x)) (fst y)) am with
+             | Some x => close tol_match (snd x) (q_of (snd y))
+             | None => false
+             end) bm &&
+  nodupN (map fst bm).
+
 Definition obs_eqb (m : list (N * Q * list (nat * Q))) (o : robs) : bool :=
   list_eqb2 (fun (a : N * Q * list (nat * Q)) (b : N * rq * list (N * rq)) =>
-              let '(ai, asc, am) := a in let '(bi, bsc, bm) := b in
-              N.eqb ai bi && close tol_file asc (q_of bsc) &&
-              list_eqb2 (fun (x : nat * Q) (y : N * rq) => N.eqb (N.of_nat (fst x)) (fst y) && close tol_match (snd x) (q_of (snd y))) am bm)
-           m o.
+               close tol_file (snd (fst a)) (q_of (snd (fst b)))) m o &&
+  forallb (fun b : N * rq * list (N * rq) =>
+             let '(bi, bsc, bm) := b in
+             match find (fun a : N * Q * list (nat * Q) => N.eqb (fst (fst a)) bi) m with
+             | Some (_, asc, am) => close tol_file asc (q_of bsc) && matches_eqv am bm
+             | None => false
+             end) o &&
+  nodupN (map (fun b : N * rq * list (N * rq) => fst (fst b)) o).
 
 Definition c29_ok (c : c29case) : bool :=
   let '(fs, o_off, o_on) := c in
